@@ -182,6 +182,11 @@ func Model(t *rapid.T, o Opts) *m.Model {
 			}
 			genLeaf := func() *m.Rewrite {
 				k := rapid.IntRange(0, 9).Draw(t, "leafKind")
+				if k < 5 && len(restr) > 0 && !chance(t, "multiThis", 4) {
+					// The DSL allows one direct-assignment operand per relation; a
+					// second `this` is only expressible through the API, so it is rare.
+					k = 5 + k%5
+				}
 				switch {
 				case k < 5:
 					return genThis()
